@@ -57,6 +57,40 @@ class Cases:
         self.meta.append(meta)
 
 
+def grind_short(rng, curve: bytes, secret: bytes, which: str, tries: int = 6000):
+    """A message whose ECDSA signature under `secret` has a leading zero byte in `which` ('r' or 's') and none in the other
+    component, found by calling the native library directly with blake2b-256 as hash (both libraries use RFC 6979 nonces)."""
+    import hashlib
+
+    def b2(x=b''):
+        return hashlib.blake2b(x, digest_size=32)
+
+    if curve == b'p2':
+        import fastecdsa.curve
+        import fastecdsa.ecdsa
+        d = int.from_bytes(secret, 'big')
+
+        def rs(m):
+            return fastecdsa.ecdsa.sign(m, d, curve=fastecdsa.curve.P256, hashfunc=b2)
+    else:
+        import coincurve
+        from coincurve import ecdsa as cc_ecdsa
+        pk = coincurve.PrivateKey(secret)
+
+        def rs(m):
+            c = cc_ecdsa.serialize_compact(cc_ecdsa.der_to_cdata(pk.sign(m, hasher=lambda x: b2(x).digest())))
+            return int.from_bytes(c[:32], 'big'), int.from_bytes(c[32:], 'big')
+    lim = 1 << 248
+    base = rng.randbytes(4)
+    for i in range(tries):
+        m = base + i.to_bytes(3, 'big')
+        r, s_ = rs(m)
+        a, b = (r, s_) if which == 'r' else (s_, r)
+        if a < lim <= b:
+            return m
+    return None
+
+
 def flip_bit(b: bytes, i: int) -> bytes:
     x = bytearray(b)
     x[i // 8] ^= 1 << (i % 8)
@@ -504,26 +538,26 @@ def run(ctx: lib.Ctx) -> None:
             # rare shapes: a signature whose r or s has a leading zero byte (fixed-width serialisation), found by grinding messages;
             # for P-256 also encodings fastecdsa refuses with its own exception classes (r, s outside [1, n-1]; bad SEC1 prefix byte)
             if curve in (b'sp', b'p2') and ki < ctx.n(1, 6):
-                for pos in (0, 32):                  # leading zero byte in r, then in s
-                    m, found = b'', False
-                    for _ in range(4000):
-                        m = rng.randbytes(6)
-                        ok_g, s_g = lib.call(k.sign, m)
-                        if not ok_g:
-                            report(f'signing failed ({curve.decode()}): {s_g!r}',
-                                   {'curve': curve.decode(), 'secret_exponent': secret.hex(), 'message': m.hex(), 'message_is_str': False, 'generic': False,
-                                    'repro': f"Key.from_secret_exponent(bytes.fromhex('{secret.hex()}'), b'{curve.decode()}').sign(bytes.fromhex('{m.hex()}'))"})
-                            break
-                        if base58_decode(s_g.encode())[pos] == 0:
-                            found = True
-                            break
-                    ctx.dist[f'leading-zero-{"r" if pos == 0 else "s"}:{curve.decode()}:{found}'] += 1
+                # The messages are found with the native library called directly (deterministic RFC 6979 nonces), NOT through Key.sign,
+                # so that a wrong serialisation in Key.sign cannot hide the shape; nothing is cached across runs.
+                for which in ('r', 's'):
+                    m = grind_short(rng, curve, sec, which)
+                    ctx.dist[f'short-{which}-found:{curve.decode()}:{m is not None}'] += 1
+                    if m is None:
+                        continue
                     for generic in (False, True):
-                        ok, s = impl_sign(cs, pub, sec, curve, m, generic, 'leading-zero')
+                        ok, s = impl_sign(cs, pub, sec, curve, m, generic, f'short-{which}')
                         oracle_sign_verify(ctx, rng, curve, secret, m, m, generic, n_alter=1, report=report)
                         if ok:
-                            impl_verify(cs, pub, None, curve, s, m, 'leading-zero')
-                            impl_checksig(cs, pk_txt, s, m, 'leading-zero')
+                            raw = base58_decode(s.encode())
+                            ctx.dist[f'short-{which}-in-Key.sign-output:{curve.decode()}:{raw[0 if which == "r" else 32] == 0}'] += 1
+                            if ck.ref_verify(curve, pub, raw, m) is False:
+                                report(f'the signature whose {which} has a leading zero byte is rejected by an independent implementation',
+                                       {'curve': curve.decode(), 'secret_exponent': secret.hex(), 'message': m.hex(), 'message_is_str': False, 'generic': generic,
+                                        'signature': s, 'raw_signature': raw.hex(),
+                                        'repro': f"k=Key.from_secret_exponent(bytes.fromhex('{secret.hex()}'), b'{curve.decode()}'); s=k.sign(bytes.fromhex('{m.hex()}'), generic={generic}); k.verify(s, bytes.fromhex('{m.hex()}'))"})
+                            impl_verify(cs, pub, None, curve, s, m, f'short-{which}')
+                            impl_checksig(cs, pk_txt, s, m, f'short-{which}')
             if curve in (b'sp', b'p2') and ki < ctx.n(1, 4):
                 m = rng.randbytes(4)
                 raw = base58_decode(k.sign(m).encode())
